@@ -130,10 +130,32 @@ def r1_handlers(report, repo):
 
     uid_test = [x for x in g.nodes if x.kind == 'test' and isinstance(
         x.ast, ast.Compare) and 'test_uid' in norm(x.ast)]
-    ok = bool(uid_test) and g.dominated_by_edge(
-        rn, lambda s, l, d: s in uid_test and l == 'T') and g.dominated_by_edge(
-            rn, lambda s, l, d: s.kind == 'test' and l == 'T' and
-            call_name(s.ast) == 'isinstance')
+
+    def selected(node):
+      """node is reached only for a handler that passed both tests"""
+      return bool(uid_test) and g.dominated_by_edge(
+          node, lambda s, l, d: s in uid_test and l == 'T') and \
+          g.dominated_by_edge(
+              node, lambda s, l, d: s.kind == 'test' and l == 'T' and
+              call_name(s.ast) == 'isinstance')
+    ok = selected(rn)
+    arg = rc.args[0] if rc.args else None
+    if not ok and isinstance(arg, ast.Name):
+      # search-then-remove: what is removed was bound under both tests, or is
+      # the "none found" default that the removal is guarded against
+      defs = lib.reaching_defs(g, rn, arg.id)
+      guarded = g.dominated_by_edge(
+          rn, lambda s, l, d: s.kind == 'test' and (
+              (l == 'T' and (core.is_name(s.ast, arg.id) or (
+                  isinstance(s.ast, ast.Compare) and core.is_name(
+                      s.ast.left, arg.id) and isinstance(
+                          s.ast.ops[0], ast.IsNot) and isinstance(
+                              s.ast.comparators[0], ast.Constant) and
+                  s.ast.comparators[0].value is None)))))
+      ok = bool(defs) and all(
+          (dn is not g.entry and selected(dn)) or (
+              guarded and isinstance(val, ast.Constant) and val.value is None)
+          for dn, val in defs)
     report.check(ok, rule, r.qualname, 'only-own-handler', rc,
                  'only a RecordHandler whose uid matches is removed',
                  'a handler can be removed without matching type and uid: '
@@ -318,6 +340,13 @@ def r4_uid_filter(report, repo):
   def classify2(expr, steps):
     if isinstance(expr, ast.Name) and expr.id == mname:
       return 'matched'
+    if isinstance(expr, ast.Compare) and len(expr.ops) == 1 and core.is_name(
+        expr.left, mname) and isinstance(expr.comparators[0], ast.Constant) \
+        and expr.comparators[0].value is None:
+      if isinstance(expr.ops[0], ast.IsNot):
+        return 'matched'
+      if isinstance(expr.ops[0], ast.Is):
+        return ('not', 'matched')
     if isinstance(expr, ast.Compare) and len(expr.ops) == 1:
       t = norm(expr)
       if "group('test_uid')" in t and 'self.test_uid' in t:
